@@ -138,6 +138,8 @@ type VC struct {
 	loadCache  map[string]*loadEntry
 	nonlinear  bool // the code multiplies or divides by a non-constant
 	pruned     int  // contract cases left out because the solver showed they cannot apply
+	implFacts     []string
+	implFactsDone bool
 	quantSides [][]string
 	immRefs    map[int][]string // per object type: references an immutable field has been read through
 	seenRefTid map[string]int // static struct type id of references to whole-object structs
@@ -971,7 +973,7 @@ func (vc *VC) mergeStates(sts []*State) *State {
 			out.kept[k] = true
 		}
 	}
-	for k := range keys {
+	for _, k := range sortedSet(keys) {
 		kk := k
 		out.ghost[k] = pick(func(s *State) string {
 			if v, ok := s.ghost[kk]; ok {
@@ -986,7 +988,7 @@ func (vc *VC) mergeStates(sts []*State) *State {
 			vkeys[k] = true
 		}
 	}
-	for k := range vkeys {
+	for _, k := range sortedSet(vkeys) {
 		kk := k
 		out.visited[k] = pick(func(s *State) string {
 			if v, ok := s.visited[kk]; ok {
@@ -1108,4 +1110,15 @@ func (vc *VC) implementsTerm(tag string, iface types.Type) string {
 func isConstInt(s string) bool {
 	_, err := parseInt(s)
 	return err == nil
+}
+
+// sortedSet: the keys of a set in a fixed order (the text of a VC must not depend on map iteration order: the
+// solvers' running time on it does).
+func sortedSet(m map[string]bool) []string {
+	out := make([]string, 0, len(m))
+	for k := range m {
+		out = append(out, k)
+	}
+	sort.Strings(out)
+	return out
 }
